@@ -615,9 +615,19 @@ def r4_retry(program, rep):
     # path from the fill to the loop test / out of the loop
     rebinds = [b_.node for b_ in T.binds if b_.var == UNL[1].var and
                _inside(b_.node.ast, w) and b_.mode in ("assign", "aug")]
+    # (... wherever the map is looked at again: the loop test, and whatever
+    # reads it after the loop)
+    uname = UNL[1].var
+    readers = [n_ for n_ in T.cfg.nodes
+               if getattr(n_, "ast", None) is not None and
+               not _inside(n_.ast, w) and n_.ast is not w and
+               n_.kind in ("stmt", "assume") and any(
+                   isinstance(x_, ast.Name) and x_.id == uname and
+                   isinstance(x_.ctx, ast.Load) for x_ in ast.walk(n_.ast))
+               and T.cfg.reaches(ffn, n_)]
     okv = bool(rebinds) and T.cfg.must_pass(
         ffn, lambda n_: n_ in rebinds,
-        targets=[T.cfg.loop_head[id(w)], T.cfg.exit])
+        targets=[T.cfg.loop_head[id(w)]] + readers)
     rep.check(okv, "C09-R4", inst, "after every fill the map of unloaded "
               "cores is established anew (by the count or by the read-back) "
               "before it decides between retrying, returning and raising",
